@@ -23,10 +23,9 @@ class _Conn(TcpConnection):
 
 
 def _conn(script):
-    c = _Conn.__new__(_Conn)
+    import secsgem.hsms
+    c = _Conn(secsgem.hsms.HsmsSettings())            # a real TcpConnection object; only its socket is the contract stub
     c._sock = FakeSock(script)
-    c._bytestream_logger = logging.getLogger("x")
-    c._logger = logging.getLogger("x")
     c.select_timeout = 0
     return c
 
@@ -51,10 +50,6 @@ def send_data_contract(data: bytes, script: List[int]) -> bool:
     return fin(hard_error)
 
 
-class _P:
-    """just the attributes HsmsProtocol._process_send_queue touches (state constructed directly)"""
-    _process_send_queue = HsmsProtocol._process_send_queue
-
 
 def send_queue_packets(d1: bytes, d2: bytes, script: List[int], psize: int) -> bool:
     """
@@ -64,10 +59,10 @@ def send_queue_packets(d1: bytes, d2: bytes, script: List[int], psize: int) -> b
     pre: all(-2 <= s <= 4 for s in script)
     post: _
     """
-    p = _P()
-    p._send_queue = queue.Queue()
+    from rigs import hsms as hrig
+    p, fake, delivered = hrig.make_protocol()          # a real HsmsProtocol; only its connection is the socket-contract stub
     p.send_packet_size = psize          # instance attribute instead of 1 MiB: same code, reachable packet boundaries
-    p._connection = _conn(script)
+    p._Protocol__connection = _conn(script)
     infos = [BlockSendInfo(d1)]
     if len(d2) > 0:
         infos.append(BlockSendInfo(d2))
